@@ -9,6 +9,7 @@ import Pumpkin.Spec.Basic
 import Pumpkin.Check.Oracle
 import Pumpkin.Model.PropagationCompile
 import Pumpkin.Model.AssignmentsState
+import Pumpkin.Model.AssignmentsRefine
 
 namespace Pumpkin.C12
 
@@ -108,6 +109,17 @@ theorem store_backtrack_restores (ops ops' : List Asg.St.Op)
     (Asg.St.run (Asg.St.run Asg.St.empty ops).newLevel ops').sync (Asg.St.run Asg.St.empty ops).level
       = Asg.St.run Asg.St.empty ops :=
   Asg.sync_restores _ (Asg.inv_run ops _ Asg.inv_empty) ops' h
+
+/-- **The store refines the abstract domains of the propagator models**: the values read off the
+store (`Asg.toDoms`) form a `Doms`, and posting a predicate on the store is `AtomRup.assume` (the
+`Pg.postAtom` of `Model/Propagation.lean` without its emptiness test) on it — in every reachable state.
+This is what connects the two halves of the model: the propagators are modelled as functions on
+`Doms`, the solver keeps `Assignments`. -/
+theorem store_refines_domains (ops : List Asg.St.Op) (p : Atom)
+    (hp : p.var < (Asg.St.run Asg.St.empty ops).doms.length) :
+    Asg.toDoms ((Asg.St.run Asg.St.empty ops).post p).1 =
+      AtomRup.assume (Asg.toDoms (Asg.St.run Asg.St.empty ops)) p :=
+  Asg.post_refines _ (Asg.inv_run ops _ Asg.inv_empty) p hp
 
 -- the hypotheses are met by a non-trivial history: a bound lands on a hole and skips it, a level is
 -- opened, the domain is emptied, and backtracking restores the state
